@@ -27,10 +27,12 @@ PROPS = {
                       "and path equality pattern with <= 2 previous objects and <= 2 listed objects; the per-object "
                       "helpers (_update_existing_object, _reuse_previous_object, _new_segment_object, "
                       "_reuse_previous_segment_metadata) each against one step of the same specification for an object "
-                      "list of any length and any position in it (no shape enumeration); FRAME obligations: "
+                      "list of any length and any position in it (no shape enumeration); the loop over the listed objects "
+                      "of a segment that starts a new object list for any number of listed objects (inductive "
+                      "invariant); FRAME obligations: "
                       "earlier segments' lists and objects are never modified; forbidden encodings raise ValueError; "
                       "runtime contract: explicit / incremental / metadata-less encodings of random files read alike.",
-                note="the loop over the listed objects (which helper is called with which arguments) is shape-bounded "
+                note="the loop over the listed objects of a segment that carries a previous list over is shape-bounded "
                      "in the number of objects (values, paths, flags symbolic); each helper is proved as one step of "
                      "the specification without a bound; unique paths within an object list are a precondition",
                 assumptions=["copy.copy is a shallow field copy", "ObjectListKey hash consistency (eq => equal hash) by "
